@@ -32,6 +32,8 @@ class ShardSummary:
     self.end: Poly | None = None
     self.replace_call: ast.Call | None = None
     self.state_ctor: ast.Call | None = None
+    # possible values (source text) of locals that hold non-arithmetic values
+    self.other_locals: dict[str, set[str]] = {}
     self._run()
 
   def _run(self):
@@ -49,6 +51,14 @@ class ShardSummary:
       if isinstance(s, ast.If):
         # argument validation: must end in raise
         if all(isinstance(x, ast.Raise) for x in s.body) and not s.orelse:
+          continue
+        # a branch that only re-binds locals holding non-arithmetic values
+        # (e.g. the recorded parent state): keep every possible value
+        asg = [x for x in s.body + s.orelse]
+        if asg and all(isinstance(x, ast.Assign) and len(x.targets) == 1 and isinstance(
+            x.targets[0], ast.Name) and x.targets[0].id not in ev.env for x in asg):
+          for x in asg:
+            self.other_locals.setdefault(x.targets[0].id, set()).add(unparse(x.value))
           continue
         raise AnalysisError(f'shard(): unsupported if-statement at line {s.lineno}')
       if isinstance(s, ast.Assign) and isinstance(s.value, ast.Call) and unparse(
@@ -68,7 +78,13 @@ class ShardSummary:
         self.state_var = s.targets[0].id if isinstance(s.targets[0], ast.Name) else None
         continue
       if isinstance(s, ast.Assign) and len(s.targets) == 1:
-        ev.assign(s.targets[0], s.value)
+        try:
+          ev.assign(s.targets[0], s.value)
+        except af.AffUnsupported:
+          if not isinstance(s.targets[0], ast.Name):
+            raise
+          ev.env.pop(s.targets[0].id, None)
+          self.other_locals[s.targets[0].id] = {unparse(s.value)}
         continue
       if isinstance(s, ast.AugAssign) and isinstance(s.target, ast.Name):
         cur = ev.env.get(s.target.id)
